@@ -15,13 +15,14 @@ K_NULL, K_BOOL, K_FLOAT, K_INT, K_UINT, K_STRING, K_ARRAY, K_OBJECT = range(8)
 
 
 class Bounds:
-    def __init__(self, str_cap=4, arr_cap=2, depth=2, ascii_only=True, kinds=None, names=None, as_object=False):
+    def __init__(self, str_cap=4, arr_cap=2, depth=2, ascii_only=True, kinds=None, names=None, as_object=False, utf8=0):
         self.names = names
         self.as_object = as_object
         self.str_cap = str_cap
         self.arr_cap = arr_cap
         self.depth = depth
         self.ascii_only = ascii_only
+        self.utf8 = utf8        # > 0: string cells are well-formed UTF-8 with characters of up to that many bytes
         self.kinds = kinds      # None = all eight
 
 
@@ -54,8 +55,12 @@ class Cell:
     @property
     def s(self):
         if self._s is None:
-            self._s = S.fresh(self.path + '.s', self.bounds.str_cap, self.uni.axioms,
-                              ascii_only=self.bounds.ascii_only)
+            if getattr(self.bounds, 'utf8', 0):
+                from .models_chars import fresh_utf8
+                self._s = fresh_utf8(self.path + '.s', self.bounds.str_cap, self.uni, max_width=self.bounds.utf8)
+            else:
+                self._s = S.fresh(self.path + '.s', self.bounds.str_cap, self.uni.axioms,
+                                  ascii_only=self.bounds.ascii_only)
         return self._s
 
     @property
